@@ -152,12 +152,22 @@ func RunDaemon(t *testing.T, sc *DaemonScenario, dump io.Writer) (res RunResult)
 				}
 				// ... and a few of the chain store's puts right after them (what went out before it was stored)
 				var puts, others []int
+				nput := 0
 				for _, k := range rest {
-					if k-1 < len(kinds) && kinds[k-1] == "chain.Put" && len(puts) < 3 && k > 3 {
-						puts = append(puts, k)
-					} else {
-						others = append(others, k)
+					if k-1 < len(kinds) && kinds[k-1] == "chain.Put" {
+						nput++
 					}
+				}
+				seen := 0
+				for _, k := range rest {
+					if k-1 < len(kinds) && kinds[k-1] == "chain.Put" {
+						seen++
+						if seen > nput-3 { // the last three: clients are attached by then
+							puts = append(puts, k)
+							continue
+						}
+					}
+					others = append(others, k)
 				}
 				rest = append(puts, others...)
 				lo := append(first, rest...)
